@@ -46,8 +46,9 @@ _HUB_ASSUME = ["Go runtime semantics are modelled, not verified: a select picks 
 PROPS = {
     "C01": {"streams": [{"name": "stack", "quick": 700, "thorough": 20000, "thorough_seeds": 3, "stateful": True, "seq_start": "stack-new"},
                         _FRAG_STREAM, {"name": "mux", "quick": 3000, "thorough": 100000, "thorough_seeds": 2}],
-            "oracles": ["swarm", "frag"], "oracle_n": {"quick": 28, "thorough": 600},
-            "rule": "stack stream: random nestings of 0-3 multiplexer channels (all five kinds) around at most one fragmenting swarm over an "
+            "oracles": ["swarm", "frag", "mux"], "oracle_n": {"quick": 28, "thorough": 600},
+            "oracle_n_by": {"mux": {"quick": 4000, "thorough": 200000}, "frag": {"quick": 3000, "thorough": 100000}},
+            "rule": "the multiplexer functions are handed the caller's vector as 1-3 segments with spare capacity and must leave it as it was; stack stream: random nestings of 0-3 multiplexer channels (all five kinds) around at most one fragmenting swarm over an "
                     "in-memory base of MTU 20-1200 whose datagrams the harness captures and releases; payloads at MTU-1/MTU/MTU+1, base and "
                     "2*base; compared: MTU(), the exact set of base datagrams of each Tell, and what the receiving stack delivers; "
                     "swarm oracle: 14 stack templates (in-memory, fragmenting, string/uint16 multiplexed, multi-transport, P2PKE, "
@@ -62,7 +63,12 @@ PROPS = {
     "C13": {"streams": [_HUB_STREAM], "oracles": ["hub", "swarm"], "rule": _HUB_RULE, "assumptions": _HUB_ASSUME, "oracle_n": {"quick": 100, "thorough": 2000}},
     "C12": {"streams": [_HUB_STREAM], "oracles": ["hub", "swarm", "kesw"], "rule": _HUB_RULE + " " + _KESW_RULE, "assumptions": _HUB_ASSUME, "oracle_n": {"quick": 100, "thorough": 2000},
             "oracle_n_by": {"kesw": {"quick": 8, "thorough": 500}}},
-    "C11": {"streams": [_HUB_STREAM, _FRAG_STREAM], "oracles": ["hub", "swarm"], "rule": _HUB_RULE, "assumptions": _HUB_ASSUME, "oracle_n": {"quick": 100, "thorough": 2000}},
+    "C11": {"streams": [_HUB_STREAM, _FRAG_STREAM], "oracles": ["hub", "swarm", "mbask"], "assumptions": _HUB_ASSUME, "oracle_n": {"quick": 100, "thorough": 2000},
+            "oracle_n_by": {"mbask": {"quick": 25, "thorough": 1500}},
+            "rule": _HUB_RULE + " `mbask` oracle: an mbapp asker, restarted now and then on the same transport address (its counter starts again), "
+                    "with several asks outstanding to two responders whose handlers answer, wait or fail; the harness is the network: "
+                    "requests and replies are handed over late, out of order, twice, after the ask was cancelled or after a restart; "
+                    "every Ask that succeeds must return what the handler produced for that very request, within its deadline."},
     "C14": {"streams": [_HUB_STREAM, {"name": "frag", "quick": 15000, "thorough": 300000, "thorough_seeds": 2, "stateful": True, "seq_start": ("frag-new", "mb-new")}],
             "oracles": ["hub", "frag"], "oracle_n_by": {"frag": {"quick": 3000, "thorough": 100000}},
             "rule": _HUB_RULE + " Buffer ownership above the hubs: in the frag, ke and ket streams every packet is handed to the layer in a "
